@@ -443,6 +443,15 @@ example : ∃ w, Node.new sample = .ok w ∧
 example : Node.new { sample with rr := [⟨"/n/a", 64, 800, [], none⟩] } = .panic := by decide
 example : Node.new { sample with rr := [⟨"/r/a", 64, 800, ["/n/old"], none⟩] } = .panic := by decide
 
+/-- Every configured request-response protocol object is constructed with its OWN request timeout and its own bound on
+concurrent inbound requests. -/
+theorem request_response_config_reaches_protocol (c : Config) :
+    ∀ p ∈ (build c).rr, Note.rr p.name p.timeoutMs p.maxInbound ∈ notes (build c) :=
+  fun _ hp => notes_rr_mem _ hp
+
+example : Note.rr "/r/b" 800 (some 1) ∈ notes (build sample) := by decide
+
 end Litep2pVerif.Props.C13.Wiring
 
 #print axioms Litep2pVerif.Props.C13.Wiring.registered_with_own_codec_and_size
+#print axioms Litep2pVerif.Props.C13.Wiring.request_response_config_reaches_protocol
